@@ -90,9 +90,10 @@ def compare(impl, model):
     """None if they agree (or the model abstains), else a short reason"""
     ik, iv = impl
     mk, mv = model
-    if mk in ("unsup", "fuel") or mk.startswith("error:stack_overflow"):
+    if mk in ("unsup", "fuel") or mk.startswith("error:stack_overflow") or mk.startswith('{"crash"'):
         # the model abstains: outside its fragment, out of fuel, or the value is too large for the runner's stack
-        # (a program about size - e.g. a range of 2^61 elements - not about meaning)
+        # (a program about size - e.g. a range of 2^61 elements, a string squared five times - not about meaning; the runner process
+        # itself may be killed by its memory limit: {"crash": rc})
         return None
     if ik == "parse":
         return "generated text does not parse"
